@@ -43,7 +43,7 @@ func (eng) CoqRequire(mode string) string {
 func (eng) CoqCaseType(mode string) string { return "Check_cluster.case" }
 func (eng) CoqRun(mode string) string      { return "Check_cluster.run" }
 func (eng) Rule(mode string) string {
-	return "random inputs (1-4 splits, 2-14 records each, 1-5 keys), 1-3 workers, 1-16 key groups, operator/runner/read batch sizes 1-5, tiny DKV (256-byte memtables); schedules of feed/drain/checkpoint/crash ops: checkpoints with every acknowledgement held and released in a random permutation, crashes before/during (after k acknowledgements)/after checkpoints, of all workers with or without the job, restart with the same or another worker count. Non-trivial: at least one crash after which records were applied, and at least one published checkpoint."
+	return "random inputs (1-4 splits, 2-14 records each, 1-5 keys), 1-3 workers, 1-16 key groups, operator/runner/read batch sizes 1-5, tiny DKV (256-byte memtables); schedules of feed/drain/checkpoint/crash ops: checkpoints with every acknowledgement held and released in a random permutation, crashes before/during (after k acknowledgements)/after checkpoints, of all workers with or without the job, restart with the same or another worker count; checkpoints whose publication (file write) is held while all workers are lost and a new assembly is deployed, released before / during the job's Deploy / after; a third of the cases with 1-2 hot keys whose summary entry is rewritten across memtable flushes. Non-trivial: at least one crash after which records were applied, and at least one published checkpoint."
 }
 
 type recJ struct {
@@ -63,6 +63,11 @@ type opJ struct {
 	Perm       []int   `json:"perm,omitempty"`
 	CrashAfter int     `json:"crash_after,omitempty"` // -1 or absent with Crash==nil: no crash
 	Crash      *crashJ `json:"crash,omitempty"`
+	// PubHold: the checkpoint is fully acknowledged but its file is written only later (slow storage); meanwhile all workers
+	// are lost (job alive) and a new assembly is deployed. The file write is released "before" the new workers exist,
+	// during the job's Deploy calls ("deploy": between the job's checkpoint read and the start of the source splitter),
+	// or "after" the new generation runs.
+	PubHold string `json:"pub_hold,omitempty"`
 }
 
 func pInt(c *hx.Case, k string, d int) int {
@@ -85,12 +90,14 @@ var incomplete atomic.Int32
 const shortTimeout = 150 * time.Millisecond
 
 type runner struct {
-	stalled bool
-	c       *clusterlib.Cluster
-	sc      *clusterlib.Script
-	w       int // current worker count of the job
-	tags    map[string]bool
-	notes   []string
+	deployHook    atomic.Pointer[func(first bool)]
+	flushedAtCkpt bool // some operator had flushed tables when the last checkpoint was published
+	stalled       bool
+	c             *clusterlib.Cluster
+	sc            *clusterlib.Script
+	w             int // current worker count of the job
+	tags          map[string]bool
+	notes         []string
 }
 
 func (r *runner) timeout() time.Duration {
@@ -169,6 +176,9 @@ func (r *runner) crash(cr *crashJ) {
 	}
 	live := r.c.LiveWorkers()
 	genBefore := r.c.Generation()
+	if r.flushedAtCkpt {
+		r.tags["crash-after-ckpt-with-flushed-tables"] = true
+	}
 	var victims []int
 	seen := map[int]bool{}
 	for _, k := range cr.Kill {
@@ -253,7 +263,11 @@ func (r *runner) checkpoint(o *opJ) {
 	total := 2 * r.w
 	released := 0
 	crashAt := -1
-	if o.Crash != nil {
+	if o.PubHold != "" {
+		r.c.HoldPublication()
+		defer r.c.ReleasePublication()
+	}
+	if o.Crash != nil && o.PubHold == "" {
 		crashAt = o.CrashAfter
 		if crashAt < 0 {
 			crashAt = 0
@@ -296,18 +310,71 @@ func (r *runner) checkpoint(o *opJ) {
 		r.c.Release(parked[pick])
 		released++
 	}
-	if !r.wait(func(l *clusterlib.Log) bool {
-		for _, p := range l.Published {
-			if p.ID == id && p.Done {
-				return true
+	published := func(done bool) func(l *clusterlib.Log) bool {
+		return func(l *clusterlib.Log) bool {
+			for _, p := range l.Published {
+				if p.ID == id && p.Done == done {
+					return true
+				}
 			}
+			return false
 		}
-		return false
-	}) {
+	}
+	if o.PubHold != "" {
+		// every acknowledgement is in, the publication is in flight (the file write is held)
+		if !r.wait(published(false)) {
+			r.tags["ckpt-not-published"] = true
+			return
+		}
+		r.c.HoldAcks(false)
+		cr := &crashJ{Notice: "dereg"}
+		if o.Crash != nil {
+			cr.Notice = o.Crash.Notice
+		}
+		r.tags["pub-held:"+o.PubHold] = true
+		switch o.PubHold {
+		case "before":
+			r.c.ReleasePublication()
+			r.wait(published(true))
+			r.crash(cr)
+		case "deploy":
+			hook := func(first bool) {
+				if first {
+					r.c.ReleasePublication()
+					r.c.AwaitNoFlush(published(true), time.Second)
+					time.Sleep(time.Millisecond) // not a synchronisation: lets the store record the publication before the job goes on
+				}
+			}
+			r.deployHook.Store(&hook)
+			r.crash(cr)
+			r.deployHook.Store(nil)
+			r.c.ReleasePublication()
+			r.wait(published(true))
+		default: // "after"
+			r.crash(cr)
+			r.c.ReleasePublication()
+			r.wait(published(true))
+		}
+		return
+	}
+	if !r.wait(published(true)) {
 		r.tags["ckpt-not-published"] = true
 		return
 	}
 	r.tags["ckpt-published"] = true
+	r.flushedAtCkpt = sstCount(r.c.WorkDir()) > 0
+}
+
+// sstCount counts flushed table files under the operators' DKV directories.
+func sstCount(dir string) int {
+	n := 0
+	filepath.WalkDir(dir, func(p string, d os.DirEntry, err error) error {
+		if err == nil && !d.IsDir() && strings.HasSuffix(p, ".sst") {
+			n++
+		}
+		return nil
+	})
+	return n
 }
 
 var debug = os.Getenv("VERIF_DEBUG") != ""
@@ -392,13 +459,19 @@ func (eng) execute(mode string, c *hx.Case) (*hx.Result, error) {
 
 	sc := clusterlib.NewScript(splits)
 	w := pInt(c, "workers", 2)
+	r := &runner{sc: sc, w: w, tags: map[string]bool{}}
 	cl, err := clusterlib.New(clusterlib.Options{Dir: dir, Workers: w, KeyGroups: pInt(c, "kg", 8), OpBatch: pInt(c, "op_batch", 1),
-		SrBatch: pInt(c, "sr_batch", 1), ReadBatch: pInt(c, "read_batch", 1), Script: sc})
+		SrBatch: pInt(c, "sr_batch", 1), ReadBatch: pInt(c, "read_batch", 1), Script: sc,
+		Hooks: clusterlib.Hooks{OnDeploy: func(gen int64, opID string, first bool) {
+			if f := r.deployHook.Load(); f != nil {
+				(*f)(first)
+			}
+		}}})
 	if err != nil {
 		return nil, err
 	}
 	defer cl.Close()
-	r := &runner{c: cl, sc: sc, w: w, tags: map[string]bool{}}
+	r.c = cl
 	cl.StartWorkers(w)
 	if !cl.AwaitRunning(0, r.timeout()) {
 		incomplete.Add(1)
@@ -514,6 +587,9 @@ func (eng) execute(mode string, c *hx.Case) (*hx.Result, error) {
 	for _, rs := range l.Restores {
 		tls = append(tls, tl{rs.Seq, fmt.Sprintf("Check_cluster.TRestore %s %s %s", hx.CoqN(uint64(rs.Gen)), hx.CoqBool(rs.HasCheckpoint), nl(rs.Positions))})
 	}
+	for _, d := range l.DeployStarts {
+		tls = append(tls, tl{d.Seq, fmt.Sprintf("Check_cluster.TDeploy %s", hx.CoqN(uint64(d.Gen)))})
+	}
 	sort.SliceStable(tls, func(i, j int) bool { return tls[i].seq < tls[j].seq })
 	var tlT []string
 	for _, t := range tls {
@@ -534,7 +610,7 @@ func (eng) execute(mode string, c *hx.Case) (*hx.Result, error) {
 		if !ok {
 			k = 999999
 		}
-		invT = append(invT, fmt.Sprintf("Check_cluster.Inv %s %s %s %s %s", hx.CoqN(uint64(iv.Gen)), hx.CoqN(uint64(k)), hx.CoqN(uint64(iv.Rec)), hx.CoqBool(iv.Probe), hx.CoqList(g, "N * N * N")))
+		invT = append(invT, fmt.Sprintf("Check_cluster.Inv %s %s %s %s %s %s", hx.CoqN(uint64(iv.Gen)), hx.CoqN(uint64(k)), hx.CoqN(uint64(iv.Rec)), hx.CoqBool(iv.Probe), hx.CoqList(g, "N * N * N"), hx.CoqN(uint64(iv.Sum))))
 	}
 	sb.WriteString(hx.CoqList(invT, "Check_cluster.inv") + "\n  ")
 	ackPos := map[uint64]map[int]int{}
@@ -653,8 +729,10 @@ func genSplits(r *hx.Rand, nsplits, maxPer, nkeys int) [][]recJ {
 }
 
 // partial kills (a subset of the workers dies, the job and the other workers survive and are re-deployed in place) hit
-// the known finding code 101 (docs/C01.md "survivor redeploy") and are slow (wedged clusters), so only every 16th case
-// (thorough: every 10th) may contain them; VERIF_C01_PARTIAL=1 allows them everywhere.
+// the known finding code 101 (docs/C01.md "survivor redeploy"). They are generated only with VERIF_C01_PARTIAL=1: the old
+// DKV that a re-deployed operator leaves open keeps running in the engine process and can panic in a background goroutine
+// ("file not found" in sst.loadFooter, D11) at any later time, which kills the process and cannot be attributed to a case.
+// corpus/cluster-findings/c01-survivor-redeploy.json replays the finding (bin/check C01 --replay).
 var partialKills = os.Getenv("VERIF_C01_PARTIAL") != ""
 
 func genCrash(r *hx.Rand, w int, allowPartial bool) *crashJ {
@@ -676,7 +754,7 @@ func genCrash(r *hx.Rand, w int, allowPartial bool) *crashJ {
 }
 
 func genCase(r *hx.Rand, i int, tier string) *hx.Case {
-	partialKills := partialKills || (tier == "thorough" && i%10 == 5) || (tier != "thorough" && i%16 == 5)
+	partialKills := partialKills
 	w := r.Range(1, 3)
 	if partialKills {
 		w = r.Range(2, 3)
@@ -686,7 +764,12 @@ func genCase(r *hx.Rand, i int, tier string) *hx.Case {
 	if tier == "thorough" {
 		maxPer = 14
 	}
-	splits := genSplits(r, nsplits, maxPer, r.Range(1, 5))
+	nkeys := r.Range(1, 5)
+	if r.Chance(1, 3) { // hot keys: the same few keys (their summary entries) are rewritten across several memtable flushes
+		nkeys = r.Range(1, 2)
+		maxPer += 5
+	}
+	splits := genSplits(r, nsplits, maxPer, nkeys)
 	kg := hx.Pick(r, []int{1, 2, 3, 4, 8, 16})
 	if kg < w && r.Chance(3, 4) {
 		kg = w + r.Intn(4)
@@ -717,7 +800,10 @@ func genCase(r *hx.Rand, i int, tier string) *hx.Case {
 		if r.Chance(1, 2) {
 			ops = append(ops, hx.Op(opJ{Op: "drain"}))
 		}
-		switch r.Intn(6) {
+		switch r.Intn(7) {
+		case 6: // checkpoint fully acknowledged, publication in flight while all workers are lost and re-deployed
+			ops = append(ops, hx.Op(opJ{Op: "ckpt", Perm: perm(), PubHold: hx.Pick(r, []string{"before", "deploy", "deploy", "after"}),
+				Crash: &crashJ{Notice: hx.Pick(r, []string{"expire", "dereg"})}}))
 		case 0, 1: // checkpoint, all acks permuted
 			ops = append(ops, hx.Op(opJ{Op: "ckpt", Perm: perm()}))
 		case 2: // crash during the checkpoint
